@@ -13,7 +13,7 @@ from ..poly import Poly
 from ..report import Ctx
 from ..symint import evaluate, find_witness
 from ..variants import Variant
-from .common import MatcherAtoms, calls_resolving_to, make_metric_objs, matcher_loop, metric_registry
+from .common import MatcherAtoms, calls_resolving_to, labelmap_api, make_metric_objs, matcher_loop, metric_registry
 
 INFO = {
     "explanation": "Rounds 4/5: (R03.8) the matcher constructors store the given threshold for 0, 0.0, 1/4, 1.0 and both metric directions; candidate records are read by the layout the generator's own abstract run produces; a threshold test moved into the candidate generator is accepted only if the generator filters by score_beats_threshold(score, threshold) on every path for a numeric threshold of unknown truth value (candidate_prefilter); R04.2/R04.4 delegated (the assignment is delivered as relabelled maps). (R03.7) every matcher is run abstractly on a symbolic pair up to its call of the candidate function (wrappers inlined): prediction array, reference array, reference labels and the configured metric arrive each in their own parameter; C03 decided clause-wise from the source: (R03.1) the pair codec of _calc_overlapping_labels is interpreted pointwise over exact polynomials for the four sign classes of (prediction label, reference label) - filter accepts exactly overlapping pairs, decode returns (ref,pred); (R03.2) the candidate list is abstractly evaluated with symbolic candidates: element structure (score,(ref,pred)), starmap binding, sorted on the score with reverse == not decreasing on every path; (R03.3) score_beats_threshold bodies (both siblings) evaluated on the full table decreasing x ordering(score,threshold) incl. falsy thresholds; (R03.4) at every add_labelmap_entry call in a matcher the path condition implies 'meets threshold', 'prediction unassigned' and, without many-to-one, 'reference unassigned' on all rows of the truth table; (R03.5) no break/return/raise skips candidates, callee raise condition excluded. Candidate discovery is complete only if pair codes cannot wrap: container obligations of the encoding for every input dtype, also when the container is computed from the data (R09.1, delegated). Delegated also: the relabelling that delivers the assignment (R04.2 fresh labels above every reference label, R04.4 label table and outputs fit their dtype). Further delegated: R15.8 (the matching path writes into no received array), R15.7 (no memo between calls).",
@@ -623,7 +623,10 @@ def matcher_classes(ctx: Ctx):
 
 
 def add_entry_func(ctx: Ctx) -> Func:
-    return ctx.prog.func("utils.instancelabelmap:InstanceLabelMap.add_labelmap_entry")
+    api = labelmap_api(ctx.prog)
+    # the member that stores the entry itself (not one that forwards to it)
+    own = [n for n in sorted(api["add"]) if any(isinstance(st, ast.Assign) and any(isinstance(t, ast.Subscript) for t in st.targets) for st in walk_no_nested(api["cls"].methods[n].node))]
+    return api["cls"].methods[own[0]]
 
 
 def pure_labelmap_method(prog):
@@ -872,7 +875,7 @@ def check_no_pruning(ctx: Ctx):
         for node in walk_no_nested(f.node):
             if isinstance(node, ast.Return) and node.value is not None:
                 sinks.append(("returned candidate list", node, node.value))
-            if isinstance(node, ast.For) and any(isinstance(c, ast.Call) and isinstance(c.func, ast.Attribute) and c.func.attr == "add_labelmap_entry" for c in ast.walk(node)):
+            if isinstance(node, ast.For) and any(isinstance(c, ast.Call) and isinstance(c.func, ast.Attribute) and c.func.attr in labelmap_api(prog)["add"] for c in ast.walk(node)):
                 sinks.append(("iterable of the greedy assignment loop", node, node.iter))
         for d, stores in keyed.items():
             for what, node, expr in sinks:
